@@ -171,11 +171,23 @@ def c14(ctx, spec):
         ctx.notes.append('lapack/syev.hpp compiles on this tree, but no syev workload exists yet: the syev part of C14 is NOT exercised')
     ctx.extra['outcomes'] = {k: v for k, v in ctx.counters.items() if k.startswith('computed') or k.startswith('rejected')}
 
+# ---------------------------------------------------------------------------------------------- C17
+def c17(ctx, spec):
+    cfgs = [(0, 1), (0, 2), (0, 3), (0, 4), (1, 2), (2, 1), (2, 2), (3, 2)] + ([(1, 1), (1, 3), (2, 3), (3, 1), (3, 3)] if ctx.tier == 'thorough' else [])
+    ctx.build([dict(name='c17_t%d_d%d' % (t, d), src='harness/c17_serial.cpp', cfg='asan', defs=['C17_T=%d' % t, 'C17_D=%d' % d], libs=['-lboost_serialization']) for (t, d) in cfgs])
+    n = T(ctx, 1500, 60000)
+    for (t, d) in cfgs: ctx.run_sharded('c17_t%d_d%d' % (t, d), n, args=['--maxext', 4 if d < 4 else 3], shards=2)
+
 HIST_RULE = ('histories (3..12 steps quick, ..40 thorough) over a pool of 4 owning arrays of one (element type, rank, allocator traits): 26 operation kinds (sizing/fill/allocator-extended/copy/move/view/init-list/iterator constructors, copy/move/self assignment over '
              'every prior state, assignment from views/other element type/init lists/ranges, swap, decay, 3 reextent overloads, clear, ={}, reshape, assign(first,last), element writes, destroy); unique ids as values; extents 0..3. '
              'After EVERY step: each live array vs. its model value, storage ranges pairwise disjoint, live-object registry == sum of num_elements, outstanding blocks == non-empty arrays with matching sizes, block owner == get_allocator(), get_allocator() == what the traits prescribe. ')
 
 REGISTRY = {
+    'C17': dict(fn=c17, level='exploration',
+                rule='Boost.Serialization 1.83 text/binary/XML archives; element types int, double, std::string (with spaces and XML metacharacters), nested multi::array<int,1>; ranks 1..4; extents 0..4 incl. all-zero and single-zero; '
+                     'whole-array round trip into a loading array in prior state {empty, same extents, other extents, larger, moved-from, same count but other extents}: extents, elements, ==, and re-saving gives the identical archive (XML archives of ints are parsed independently: exactly num_elements items in canonical order); '
+                     'view round trip: a view {whole, rotated, sub-block, strided} is saved and loaded into the same kind of view over another root: k-th element to k-th element, everything outside the loaded view untouched. distinct = hash(archive kind, prior state / view kind, emptiness); non-trivial = >= 2 elements',
+                assumptions=['0-D arrays are not serialised here (reduced interface)']),
     'C14': dict(fn=c14, level='exploration',
                 rule='potrf: n 1..6 (thorough ..9) x {row-major, column-major} x {contiguous, padded} x both triangles x {SPD M*M^T+nI, indefinite with a known first non-positive leading minor}: returned block order, factor*factor^T vs the selected triangle (50*n*eps*|A|), other triangle and everything outside the view untouched. '
                      'geqrf: m,n 1..6 rectangular, 4 layouts: Q*R rebuilt from the reflectors and tau in LAPACK\'s own column-major reading of the view vs. the input, outside untouched. gesvd: m,n 1..6, A/U/VT layouts: U*diag(s)*VT vs the input, s non-negative and descending, outside of all three roots untouched. '
